@@ -1,8 +1,10 @@
 SPECIFICATION Spec
 CONSTANTS
-  MaxRows = 4
+  MaxRows = 3
   ChanCap = 4
   FixedAlter = TRUE
   MaxPersists = 3
-INVARIANTS LayersParallel IndexesAgree StatsExact ReopenSeesAll BtreeCount
+  MaxDeletes = 2
+  FirstOnlyModified = FALSE
+INVARIANTS LayersParallel IndexesAgree StatsExact ReopenSeesAll BtreeCount DurableIndexesAgree
 CHECK_DEADLOCK FALSE
